@@ -374,7 +374,7 @@ def run(ctx):
         ctx.count("key_objects", len(f.objs))
     n_sigs = ctx.pick(10, 30)
     n_mut = ctx.pick(32, 60)
-    deadline = ctx.deadline(100, 1000)
+    deadline = ctx.deadline(100, 420)
     import time
     for f in fams:
         if time.time() > deadline:
